@@ -47,6 +47,17 @@ CLAIMS.update({
             "per-attempt monotonicity and 4*(examined+2)+16 bound; maximal observed ratio reported", "5 C20"),
 })
 
+CLAIMS.update({
+    "C16": ("runtime monitoring: output/graph hash comparison across threads and processes (fresh hash-map seeds), both code generators, plus byte comparison of repeated logos-cli runs",
+            "P processes x T threads per definition; CLI twice + --check", "5 C16"),
+    "C17": ("runtime monitoring: independent syn-based oracle over the real logos-cli binary's output + file-model monitor over write/check histories",
+            "stripped enum (token comparison), implementation == generate(), valid Rust, --format == rustfmt(plain), check status/mtime model", "5 C17"),
+    "C18": ("runtime monitoring: differential monitor over all permutations of named attribute arguments and dependency-respecting orders of #[logos(...)] items through the real generate()",
+            "acceptance and generated code / diagnostics must be identical to the canonical order", "5 C18"),
+    "C19": ("runtime monitoring: panic monitor (catch_unwind) and must-reject category oracle over generated, malformed and mutated inputs; the same through real stable rustc (diagnostics JSON); corpus must compile",
+            "library entry point and real procedural macro on the stable toolchain", "5 C19"),
+})
+
 PENDING = {}
 
 
